@@ -44,7 +44,7 @@ func (fr *Frame) checkWrite(st *State, in ssa.Instruction, it locItem, what stri
 
 func (fr *Frame) checkWriteAgainst(st *State, in ssa.Instruction, it locItem, what string, wc *writeConstraint) {
 	var alts []*Term
-	if it.obj != nil {
+	if it.obj != nil && it.kind != "maptype" {
 		alts = append(alts, Ge(it.obj, wc.nextAt))
 	}
 	for _, a := range wc.items {
